@@ -3,6 +3,7 @@ import Proofs.Search
 import Proofs.ProbingAuto
 import Proofs.ProbingP2
 import Proofs.ProbingAutoP2Run
+import Proofs.ProbingAutoInserts
 /-!
 # C20 — Core lookup primitives behave as exact maps and arrays  (bit-packing clause)
 
@@ -431,6 +432,21 @@ theorem run_refines_map_from_empty (h : Nat → Nat) (N : Nat) (hN : 0 < N) (ops
     ∃ t', runT h (emptyTable N) ops = some (outs, t') ∧ Ref h t' σ' :=
   run_refines h ops _ _ outs σ' ⟨Inv_empty h N hN, Abs_empty N, rfl, rfl⟩ hs
 
+/-- **the property in its own words, fixed size**: after inserting any sequence of distinct keys that
+keeps the table below capacity (`length < N`), every inserted key is found with its value and every
+other key is reported absent — for every hash function and every bucket count -/
+theorem inserted_found (h : Nat → Nat) (N : Nat) (kvs : List (Nat × Nat))
+    (hd : kvs.Pairwise (fun a b => a.1 ≠ b.1)) (hc : kvs.length < N) :
+    ∃ t, runT h (emptyTable N) (insertsOf kvs) = some (kvs.map (fun _ => Out.done), t) ∧
+      (∀ k v, (k, v) ∈ kvs → find h t k = some (some v)) ∧
+      (∀ k, (∀ v, (k, v) ∉ kvs) → find h t k = some none) :=
+  KV.Probing.inserted_found h N kvs hd hc
+
+/-- the `UncheckedInsert` loop fails to terminate exactly on a completely full table -/
+theorem firstEmpty_diverges_iff (s : Slots) (N i : Nat) (hi : i < N) :
+    firstEmpty s N N i = none ↔ ∀ x, x < N → s x ≠ none :=
+  firstEmpty_diverges_iff' s N i hi
+
 /-- **`Double` preserves the table**: all three loops terminate, the result satisfies the invariant
 for `2 N`, represents the same map (including every entry that had wrapped around the end),
 `entries_` and the number of occupied buckets are unchanged -/
@@ -495,6 +511,17 @@ theorem auto_refines_map_power2 (h : Nat → Nat) (x : Nat) (h1 : 1 ≤ x) (h2 :
   obtain ⟨a', hr, r, _⟩ := runAP2_refines h thetaReal thetaReal_ok ops _ _ outs M'
     (auto_init h thetaReal _ hpos) ⟨j, hj⟩ hs
   exact ⟨a', hr, r⟩
+
+/-- **the property in its own words, growing variant** (as compiled: `Power2Mod` backend, `RoundBuckets(x)`
+initial buckets, the code's threshold): after inserting any list of distinct keys — of any length, through
+however many doublings — every inserted key is found with its value and every other key is absent -/
+theorem auto_inserted_found (h : Nat → Nat) (x : Nat) (h1 : 1 ≤ x) (h2 : x ≤ 2^63) (kvs : List (Nat × Nat))
+    (hd : kvs.Pairwise (fun a b => a.1 ≠ b.1)) :
+    ∃ a, runAP2 h thetaReal { t := emptyTable (KV.Probing.roundBuckets x), thr := thetaReal (KV.Probing.roundBuckets x) }
+          (insertsOf kvs) = some (kvs.map (fun _ => Out.done), a) ∧
+      (∀ k v, (k, v) ∈ kvs → a.find h k = some (some v)) ∧
+      (∀ k, (∀ v, (k, v) ∉ kvs) → a.find h k = some none) :=
+  KV.Probing.auto_inserted_found h x h1 h2 kvs hd
 
 example : KV.Probing.roundBuckets 1 = 1 ∧ KV.Probing.roundBuckets 5 = 8 ∧ KV.Probing.roundBuckets 8 = 8 ∧
     KV.Probing.roundBuckets (2^63) = 2^63 ∧ KV.Probing.roundBuckets (2^63 + 1) = 0 := by decide
